@@ -37,7 +37,7 @@ REGIONS = [[2.0, 2000.0, 1.0, 1000.0], [-10.0, -9.5, -0.25, 7.75], [0.0, 1.0, 10
            [7500000.0, 7500020.0, 500000.0, 500004.0], [1.0e6, 1.0e6 + 0.003, -1.0e6 - 0.002, -1.0e6]]
 SENT = ["1.70141e38", "1.71e38", "3e38"]
 BIG_OK = 1.70140e38
-NFMT = 7
+NFMT = 8   # style 7: blank and whitespace-only lines between the header and the body and between rows (seed C19-14)
 
 
 def bounds(tier, seed):
@@ -71,7 +71,7 @@ def cases(tier, seed):
                     for src in ("stringio", "path"):
                         yield dict(kind="wrapped", nn=nn, ne=ne, region=ri, width=width, src=src)
                 for fault in ("swap_counts", "nn+1", "nn-1", "ne+1", "ne-1", "swap_range_lines", "shift_s", "shift_n", "shift_w",
-                              "shift_e", "z_up", "z_down", "zmin_up", "zmax_down", "drop0", "drop1", "drop2", "drop3", "drop4"):
+                              "shift_e", "z_up", "z_down", "z_swap", "z_swap_shift", "zmin_up", "zmax_down", "drop0", "drop1", "drop2", "drop3", "drop4"):
                     for blank in ([], [1]):
                         for src in ("stringio", "path"):
                             yield dict(kind="fault", nn=nn, ne=ne, region=ri, fault=fault, blank=blank, src=src)
@@ -102,12 +102,16 @@ def _write(nn, ne, region, vals, blank, sent, style, header=None, wrap=None):
     head = ["DSAA", "%d %d" % (nn, ne), "%.17g %.17g" % (s, n), "%.17g %.17g" % (w, e), "%.17g %.17g" % (zmin, zmax)]
     if header is not None:
         head = header(head, dict(nn=nn, ne=ne, w=w, e=e, s=s, n=n, zmin=zmin, zmax=zmax))
-    sep = {0: " ", 1: "\t", 2: "   ", 3: " ", 4: " ", 5: "  ", 6: " "}[style]
+    sep = {0: " ", 1: "\t", 2: "   ", 3: " ", 4: " ", 5: "  ", 6: " ", 7: " "}[style]
     lead = "        " if style == 2 else ""
     trail = "  " if style == 2 else ""
     eol = "\r\n" if style == 4 else "\n"
     lines = [lead + h + trail for h in head]
+    if style == 7:
+        lines += ["", "   "]
     for i in range(nn):
+        if style == 7 and i == 1:
+            lines.append("")
         toks = [sent if (i * ne + j) in blank else _fmtnum(vals[i][j], style) for j in range(ne)]
         if wrap:
             for k in range(0, ne, wrap):
@@ -139,7 +143,7 @@ def ref_read(text):
     zz = [float(t) for t in lines[4].split()]
     if len(sn) != 2 or len(we) != 2 or len(zz) != 2:
         raise ValueError("ranges")
-    body = [[float(t) for t in ln.split()] for ln in lines[5:]]
+    body = [[float(t) for t in ln.split()] for ln in lines[5:] if ln.strip()]
     if len(body) != nn or any(len(r) != ne for r in body):
         raise ValueError("shape")
     finite = [v for r in body for v in r if v < 1.70141e38]
@@ -305,6 +309,10 @@ def run(case, rec):
                 head[4] = "%.17g %.17g" % (h["zmin"] + span, h["zmax"] + span)
             elif fault == "z_down":
                 head[4] = "%.17g %.17g" % (h["zmin"] - span, h["zmax"] - span)
+            elif fault == "z_swap":
+                head[4] = "%.17g %.17g" % (h["zmax"], h["zmin"])
+            elif fault == "z_swap_shift":
+                head[4] = "%.17g %.17g" % (h["zmax"] + span, h["zmin"] + span)
             elif fault == "zmin_up":
                 head[4] = "%.17g %.17g" % (h["zmin"] + span, h["zmax"])
             elif fault == "zmax_down":
